@@ -14,8 +14,8 @@ using vf::tracked_mo;
 
 enum { FA_VALUE = 0, FA_EXC = 1, FA_DROP = 2, FA_NONE = 3 };
 inline const char *fa_name(int a) { static const char *n[] = {"value", "exception", "drop", "none"}; return n[a]; }
-enum { FW_CORO = 0, FW_HASVALUE = 1, FW_WAIT = 2, FW_SYNC = 3, FW_CALLBACK = 4, FW_POLL = 5, FW_FORCE_SYNC = 6, FW_NKINDS = 7 };
-inline const char *fw_name(int a) { static const char *n[] = {"co_await", "co_await has_value", "wait()", "sync()+value()", "callback awaiter", "poll ready()", "force_sync()+value()"}; return n[a]; }
+enum { FW_CORO = 0, FW_HASVALUE = 1, FW_WAIT = 2, FW_SYNC = 3, FW_CALLBACK = 4, FW_POLL = 5, FW_FORCE_SYNC = 6, FW_BARE = 7, FW_NKINDS = 8 };
+inline const char *fw_name(int a) { static const char *n[] = {"co_await", "co_await has_value", "wait()", "sync()+value()", "callback awaiter", "poll ready()", "force_sync()+value()", "co_await in a foreign (bare) coroutine"}; return n[a]; }
 
 template <typename T> const char *ftype_name() {
     if constexpr (std::is_void_v<T>) return "void";
@@ -83,8 +83,22 @@ inline cocls::async<void> f_by_parked(f_bystander &B) { int v = co_await B.g; (v
     } \
     if ((B).mode & 1) f_by_child(B).detach();   /* discarded: queued, not started */ \
     (B).queued_at_registration = (B).mode && (B).ran.load(std::memory_order_relaxed) == 0;
+// a coroutine type that is NOT the library's (what another coroutine library's task looks like to cocls): resumed by plain
+// handle.resume(), no ready queue of its own; the frame is destroyed by the harness after the round
+struct f_bare_task {
+    struct promise_type {
+        f_bare_task get_return_object() { return {std::coroutine_handle<promise_type>::from_promise(*this)}; }
+        std::suspend_always initial_suspend() noexcept { return {}; }
+        std::suspend_always final_suspend() noexcept { return {}; }
+        void return_void() {}
+        void unhandled_exception() { std::terminate(); }
+    };
+    std::coroutine_handle<promise_type> h;
+};
 template <typename T> struct fut_round {
     f_bystander by[3];
+    std::coroutine_handle<> bare[3] = {};
+    ~fut_round() { for (auto &b : bare) if (b && b.done()) b.destroy(); }
     std::unique_ptr<cocls::future<T>> f;
     std::optional<cocls::promise<T>> prom;
     int ncont = 0, nwait = 0;
@@ -103,6 +117,20 @@ template <typename T> struct fut_round {
 template <typename T> cocls::async<void> f_w_coro(fut_round<T> &X, int wi) {
     f_wrec &rec = X.w[wi];
     F_BY_PREPARE(X.by[wi])
+    try {
+        if constexpr (std::is_void_v<T>) { co_await *X.f; rec.o.state = PS_VALUE; }
+        else {
+            auto &v = co_await *X.f;
+            (void)v;
+            rec.o = read_future(*X.f, X.target, 4);
+        }
+    } catch (const vf::test_exc &e) { rec.o.state = PS_EXC; rec.o.code = e.code; }
+    catch (const cocls::await_canceled_exception &) { rec.o.state = PS_CANCELED; }
+    rec.ready_at_release = X.f->ready();
+    rec.released.fetch_add(1, std::memory_order_relaxed);
+}
+template <typename T> f_bare_task f_w_bare(fut_round<T> &X, int wi) {
+    f_wrec &rec = X.w[wi];
     try {
         if constexpr (std::is_void_v<T>) { co_await *X.f; rec.o.state = PS_VALUE; }
         else {
@@ -162,6 +190,7 @@ template <typename T> void f_waiter(fut_round<T> &X, int wi) {
     switch (X.wkind[wi]) {
     case FW_CORO: f_w_coro<T>(X, wi).detach(); break;
     case FW_HASVALUE: f_w_hasvalue<T>(X, wi).detach(); break;
+    case FW_BARE: { f_bare_task t = f_w_bare<T>(X, wi); X.bare[wi] = t.h; t.h.resume(); break; } // runs until it parks on the future (or to its end)
     case FW_WAIT:
         try {
             if constexpr (std::is_void_v<T>) { X.f->wait(); rec.o.state = PS_VALUE; }
@@ -711,6 +740,59 @@ inline void callback_awaiter_reuse(const vf::opts &o, vf::report &R, uint64_t ca
         R.nontrivial_cases++;
         R.sig(trace);
         if (R.samples.size() < 2) R.sample(vf::jobj().kv("ops", trace).kv("result", "released once per operation with that operation's result").str());
+    }
+}
+
+
+// ---------------------------------------------------------------------------------------------
+// MANY coroutine waiters on one future (1-13: more than a suspend point carries inline), released by every kind of resolver - a call
+// from ordinary code, a coroutine that awaits or discards the promise's suspend point, and the completion of an async coroutine that
+// was started into the future (its final step hands the waiters over through the symmetric-transfer path). Every waiter exactly once.
+inline cocls::async<void> fm_waiter(cocls::future<int> &f, int &released, int &val) {
+    try { int v = co_await f; val = v; } catch (const cocls::await_canceled_exception &) { val = -1; } catch (...) { val = -2; }
+    released++;
+}
+inline cocls::async<int> fm_async_source(cocls::future<void> &gate, int how) { bool hv = co_await gate.has_value(); (void)hv; if (how == 1) throw vf::test_exc{4}; co_return 42; }
+inline cocls::async<void> fm_coro_resolver(cocls::promise<int> &p, int how, bool await_it, int &continued) {
+    if (await_it) { if (how == 0) { bool ok = co_await p(42); (void)ok; } else { bool ok = co_await p(cocls::drop); (void)ok; } }
+    else { if (how == 0) p(42); else p(cocls::drop); }
+    continued++;
+}
+inline void future_many_waiters(const vf::opts &o, vf::report &R, uint64_t cases) {
+    static const int counts[] = {1, 2, 3, 4, 4, 5, 6, 7, 8, 9, 12, 13};
+    vf::rng master(vf::mix(o.seed, 0x02aa));
+    for (uint64_t cn = 0; cn < cases && R.nviol() < 5; cn++) {
+        vf::rng r(master.next());
+        vf::set_crash_ctx(R.prop.c_str(), "future_many_waiters", o.seed, cn);
+        int n = counts[r.below(12)], mode = (int)r.below(4), how = (int)r.below(2);
+        static const char *mn[] = {"promise called from ordinary code", "coroutine co_awaits the promise's suspend point", "coroutine discards the promise's suspend point", "completion of an async coroutine started into the future"};
+        std::string desc = std::to_string(n) + " coroutine waiters, resolver: " + mn[mode] + (how == 0 ? ", value" : mode == 3 ? ", exception" : ", drop");
+        std::string err;
+        auto rel = std::make_unique<std::array<int, 16>>(); auto val = std::make_unique<std::array<int, 16>>(); rel->fill(0); val->fill(-9);
+        int continued = 0;
+        {
+            cocls::future<void> gate; cocls::promise<void> gp = gate.get_promise();
+            std::unique_ptr<cocls::future<int>> f;
+            std::optional<cocls::promise<int>> p;
+            if (mode == 3) f.reset(new cocls::future<int>(fm_async_source(gate, how)));
+            else { f.reset(new cocls::future<int>()); p.emplace(f->get_promise()); }
+            for (int i = 0; i < n; i++) fm_waiter(*f, (*rel)[(size_t)i], (*val)[(size_t)i]).detach();
+            for (int i = 0; i < n && err.empty(); i++) if ((*rel)[(size_t)i] != 0) err = "waiter released before the resolution";
+            if (mode == 0) { if (how == 0) (*p)(42); else (*p)(cocls::drop); }
+            else if (mode == 1 || mode == 2) { fm_coro_resolver(*p, how, mode == 1, continued).detach(); if (continued != 1 && err.empty()) err = "resolving coroutine continued " + std::to_string(continued) + " times"; }
+            else gp();
+            int want = mode == 3 ? (how == 0 ? 42 : -2) : (how == 0 ? 42 : -1);
+            for (int i = 0; i < n && err.empty(); i++) {
+                if ((*rel)[(size_t)i] != 1) err = "waiter #" + std::to_string(i) + " of " + std::to_string(n) + " released " + std::to_string((*rel)[(size_t)i]) + " times";
+                else if ((*val)[(size_t)i] != want) err = "waiter #" + std::to_string(i) + " observed " + std::to_string((*val)[(size_t)i]) + " instead of " + std::to_string(want);
+            }
+            if (!err.empty()) { (void)f.release(); } // waiters may still be registered on it
+        }
+        R.cases++;
+        if (!err.empty()) { R.violation("monitor:wakeup|future_many_waiters", err, vf::jobj().kv("case", (unsigned long long)cn).kv("seed", (unsigned long long)o.seed).kv("desc", desc).str()); continue; }
+        if (n >= 4) R.nontrivial_cases++;
+        R.sig(desc, n >= 4);
+        R.cls(std::string("many_waiters: ") + mn[mode]);
     }
 }
 
